@@ -1,2 +1,3 @@
-(* Correspondence entry points for C03: see Corr/PacketCorr.v (c03_ok, c03w_ok, c03rp_ok). *)
-From Hop Require Export PacketCorr.
+(* Correspondence entry points for C03: see Corr/PacketCorr.v (c03_ok, c03x_ok, c03w_ok, c03rp_ok) and
+   Corr/RecvLoopCorr.v (c03l_ok: whole event sequences against the running receive loops; c03k_ok: size constants). *)
+From Hop Require Export PacketCorr RecvLoopCorr.
